@@ -62,6 +62,10 @@ class StlPastifier(LtlPastifier, StlAstVisitor):
             horizon = horizons[spec]
             pastified_spec = self.visit(spec, horizon)
             pastified_specs.append(pastified_spec)
+            # a named sub-specification is from now on its pastified form
+            for key in ast.var_subspec_dict:
+                if ast.var_subspec_dict[key] is spec:
+                    ast.var_subspec_dict[key] = pastified_spec
         ast.specs = pastified_specs
         ast.phi_name_to_node_dict = self.ast.phi_name_to_node_dict
         return ast
